@@ -6,6 +6,7 @@ import Lemmas.PipelineFacts
 import Lemmas.HNormPipeline
 import Lemmas.LastOkUnicode
 import Lemmas.OptimalOneLine
+import Lemmas.OptimalOwn
 import Lemmas.InplaceWrap
 import Lemmas.Ansi
 import TextwrapModel.Tables
@@ -604,6 +605,61 @@ theorem wrap_shortcut_unobservable (env : Env) (hcw : ∀ c, env.cw c ≤ c.utf8
   · unfold wrapSingleLine
     have : ¬ (blen p < o.width ∧ (if n = 0 then o.initialIndent else o.subsequentIndent).isEmpty = true) := hshort
     rw [if_neg this]
+
+/-! ### optimal-fit without the `smawk` contract
+
+With the model's own `smawk` (`ownMinima`, TextwrapModel/Smawk.lean) the contract clause
+`MoConforms` is a theorem (`TW.ownMinima_isMinimaRows`): the pipeline's fragments carry no
+penalty with the built-in splitters, widths are natural numbers, and `wrap` uses two line
+widths. What remains of `ShortcutContracts` is the clause about `unicode_linebreak`. -/
+
+/-- the `smawk` clause of the contracts, for the model's own `smawk` -/
+-- @audit TW.C05.moConforms_own
+theorem moConforms_own (p : Penalties) (frs : List Word) (hnp : NoPen frs) (lws : List Nat) (hl : lws.length ≤ 2) :
+    MoConforms (ownMinima p) p frs lws :=
+  ownMinima_isMinimaRows p _ (by simpa using hl) _ (hyp_words p _ frs hnp)
+
+/-- `ShortcutContracts` with the model's own `smawk` reduces to its `unicode_linebreak` clause
+    and `nline_penalty > 0` -/
+theorem shortcutContracts_own (env : Env) (o : Opts) (hb : Builtin o.splitter) (pen0 : Penalties)
+    (halg : o.alg = .firstFit ∨ (o.alg = .optimalFit pen0 ∧ 0 < pen0.nline)) (p : Text)
+    (hu : o.sep = .unicode →
+      OppsNoSpace (stripAnsi p) (env.opps (stripAnsi p)) ∧
+      ∀ o' ∈ env.opps (stripAnsi p), o' < blen (stripAnsi p) → ∃ l r, stripAnsi p = l ++ r ∧ blen l = o') :
+    ShortcutContracts env (ownMinima pen0) o p := by
+  refine ⟨hu, ?_⟩
+  intro pen hpen
+  rcases halg with h | ⟨h, hP⟩
+  · rw [h] at hpen; cases hpen
+  · rw [h] at hpen
+    cases hpen
+    refine ⟨hP, ?_⟩
+    intro frs hfrs nPrev
+    exact moConforms_own pen0 frs (pipeline_noPen env o hb p _ frs hfrs) _ (by simp)
+
+/-- **`wrap`'s shortcut is unobservable — ASCII separator, first-fit or optimal-fit with any
+    penalties having `nline_penalty > 0`, built-in splitters, `break_words` on/off, every text,
+    width and indents — with no assumption about `smawk`**: the model runs `smawk`'s own
+    algorithm, proved to return column minima of textwrap's cost matrix -/
+-- @audit TW.C05.wrap_shortcut_unobservable_own_ascii
+theorem wrap_shortcut_unobservable_own_ascii (env : Env) (hcw : ∀ c, env.cw c ≤ c.utf8Size)
+    (o : Opts) (hb : Builtin o.splitter) (hsep : o.sep = .ascii) (pen0 : Penalties)
+    (halg : o.alg = .firstFit ∨ (o.alg = .optimalFit pen0 ∧ 0 < pen0.nline)) (text : Text) :
+    wrap env (ownMinima (α := Int) pen0) o text = wrapNoShortcut env (ownMinima (α := Int) pen0) o text :=
+  wrap_shortcut_unobservable env hcw _ o hb text fun p _ _ =>
+    shortcutContracts_own env o hb pen0 halg p (fun h => by rw [hsep] at h; cases h)
+
+/-- the same for both separators, relative to the `unicode_linebreak` clause only -/
+-- @audit TW.C05.wrap_shortcut_unobservable_own
+theorem wrap_shortcut_unobservable_own (env : Env) (hcw : ∀ c, env.cw c ≤ c.utf8Size)
+    (o : Opts) (hb : Builtin o.splitter) (pen0 : Penalties)
+    (halg : o.alg = .firstFit ∨ (o.alg = .optimalFit pen0 ∧ 0 < pen0.nline)) (text : Text)
+    (hu : ∀ p ∈ splitEnding o.lineEnding text, blen p < o.width → o.sep = .unicode →
+      OppsNoSpace (stripAnsi p) (env.opps (stripAnsi p)) ∧
+      ∀ o' ∈ env.opps (stripAnsi p), o' < blen (stripAnsi p) → ∃ l r, stripAnsi p = l ++ r ∧ blen l = o') :
+    wrap env (ownMinima (α := Int) pen0) o text = wrapNoShortcut env (ownMinima (α := Int) pen0) o text :=
+  wrap_shortcut_unobservable env hcw _ o hb text fun p hp hlt =>
+    shortcutContracts_own env o hb pen0 halg p (hu p hp hlt)
 
 /-! ### coloured text: H-norm discharged for safe lines -/
 
